@@ -137,6 +137,15 @@ def make_volume(path, spec, rng):
             a = np.stack([(a + 11 * k) % (hi + 1) for k in range(shape[3])], axis=-1)
     else:
         a = rng.integers(0, hi + 1, size=shape)
+    if spec.get("zero_slab"):
+        # background: a slab of zeros at the start of the longest axis; with a length that is a
+        # multiple of the chunk size it contains ENTIRELY zero chunks (at every scale)
+        ax = int(np.argmax(shape[:3]))
+        sl = [slice(None)] * a.ndim
+        sl[ax] = slice(0, int(spec["zero_slab"]))
+        a[tuple(sl)] = 0
+    if spec.get("allzero"):
+        a = a * 0
     if spec.get("offset"):
         # large labels (beyond 2^31 / 2^53): only the non-zero voxels are shifted
         a = np.where(a != 0, a.astype(np.uint64) + np.uint64(spec["offset"]), np.uint64(0))
@@ -618,6 +627,7 @@ class _Handler(http.server.BaseHTTPRequestHandler):
     or .gz (served with Content-Encoding: gzip, as neuroglancer-docker does);
     Range requests (shard files) are honoured."""
     root = "."
+    fault = {}
     protocol_version = "HTTP/1.1"
 
     def log_message(self, *a):
@@ -641,6 +651,14 @@ class _Handler(http.server.BaseHTTPRequestHandler):
 
     def _serve(self, body):
         p, gz = self._resolve()
+        rel = self.path.split("?")[0].lstrip("/")
+        if body and self.fault.get("left", 0) > 0 and _CHUNK_FLAT.match(rel.split("/")[-1]):
+            # transient server fault: the first chunk request(s) get 503 Service Unavailable
+            self.fault["left"] -= 1
+            self.send_response(503)
+            self.send_header("Content-Length", "0")
+            self.end_headers()
+            return
         if p is None:
             self.send_response(404)
             self.send_header("Content-Length", "0")
@@ -686,14 +704,19 @@ class _Server(socketserver.ThreadingMixIn, http.server.HTTPServer):
 
 class LoopbackServer:
     """with LoopbackServer(root) as base_url: ..."""
-    def __init__(self, root):
-        handler = type("H", (_Handler,), {"root": root})
+    def __init__(self, root, fail_chunk_requests=0):
+        self.fault = {"left": 0, "arm": int(fail_chunk_requests)}
+        handler = type("H", (_Handler,), {"root": root, "fault": self.fault})
         self.srv = _Server(("127.0.0.1", 0), handler)
         self.thread = threading.Thread(target=self.srv.serve_forever, daemon=True)
 
     def __enter__(self):
         self.thread.start()
         return "http://127.0.0.1:%d" % self.srv.server_address[1]
+
+    def arm(self):
+        """the next `fail_chunk_requests` chunk requests are answered with 503"""
+        self.fault["left"] = self.fault["arm"]
 
     def __exit__(self, *a):
         self.srv.shutdown()
@@ -856,6 +879,35 @@ def apply_obstruct(c, env):
         if "--no-gzip" not in lay:
             p += ".gz"
     os.makedirs(p)
+    return 0
+
+
+def apply_damage(c, env):
+    """ENVIRONMENT (harness action): one chunk file of the FIRST scale of an
+    unsharded dataset is removed (c['m'] = 'remove') or cut to half its length
+    ('truncate').  Refused (exit 1) without such a file."""
+    d = env["dirs"][c["d"]]
+    try:
+        with open(os.path.join(d, "info")) as f:
+            key = json.load(f)["scales"][0]["key"]
+    except (OSError, ValueError, KeyError, IndexError):
+        return 1
+    found = []
+    for root, _, files in os.walk(os.path.join(d, key)):
+        for fn in files:
+            rel = os.path.relpath(os.path.join(root, fn), os.path.join(d, key))
+            if _CHUNK_FLAT.match(rel) or _CHUNK_DEEP.match(rel):
+                found.append(os.path.join(root, fn))
+    if not found:
+        return 1
+    p = sorted(found)[-1]
+    if c["m"] == "truncate":
+        with open(p, "rb") as f:
+            data = f.read()
+        with open(p, "wb") as f:
+            f.write(data[:len(data) // 2])
+    else:
+        os.remove(p)
     return 0
 
 
@@ -1034,7 +1086,7 @@ class Session:
                 b4 = back if back.ndim == 4 else back[..., np.newaxis]
                 case["svol"][c["code"]] = it.add(np.moveaxis(b4, (0, 1, 2, 3), (3, 2, 1, 0)))
         for dn in prog.get("http", []):
-            srv = LoopbackServer(dirs[dn])
+            srv = LoopbackServer(dirs[dn], fail_chunk_requests=1)
             env["urls"][dn] = srv.__enter__()
             self.servers.append(srv)
         case["init"] = {k: snap_dir(p, it) for k, p in dirs.items()}
@@ -1044,6 +1096,8 @@ class Session:
         report = _no_report()
         if forced is not None:
             rc, out, tail, args = forced
+            if c["op"] == "Stats" and rc == 0:
+                report = parse_stats(out)
         elif c["op"] == "Edit":
             rc, out, tail, args = apply_edit(c, env), "", "", ["<edit info>"]
         elif c["op"] == "HandInfo":
@@ -1052,7 +1106,14 @@ class Session:
             rc, out, tail, args = apply_obstruct(c, env), "", "", ["<obstruct %s>" % c["m"]]
         elif c["op"] == "Rechunk":
             rc, out, tail, args = apply_rechunk(c, env), "", "", ["<re-tile dataset %s>" % c["m"]]
+        elif c["op"] == "Damage":
+            rc, out, tail, args = apply_damage(c, env), "", "", ["<%s one chunk file>" % c["m"]]
         else:
+            if c["op"] == "Convert" and c["m"] == "srcfault":
+                if not self.servers:
+                    raise tlc.MachineryError("Convert with a source fault needs a remote source")
+                for srv in self.servers:
+                    srv.arm()
             module, args = build_args(c, env)
             rc, out, tail, args = run_tool(module, args, self.base)
             if c["op"] == "Stats" and rc == 0:
@@ -1096,48 +1157,71 @@ def run_program(workdir, prog, name="p"):
 
 
 _INPROC = r"""
-import json, sys, traceback
+import contextlib, io, json, sys, traceback
 from neuroglancer_scripts.scripts import convert_chunks as cc
+from neuroglancer_scripts.scripts import scale_stats as ss
 out = []
-for src, dst in json.loads(sys.argv[1]):
+for call in json.loads(sys.argv[1]):
+    buf = io.StringIO()
     try:
-        r = cc.convert_chunks(src, dst, copy_info=True)      # default options, as an API user calls it
-        out.append([int(r or 0), ""])
+        with contextlib.redirect_stdout(buf):
+            if call["kind"] == "convert":      # default options, as an API user calls it
+                r = cc.convert_chunks(call["src"], call["dst"], copy_info=True)
+            else:
+                r = ss.show_scale_file_info(call["url"])
+        out.append([int(r or 0), buf.getvalue(), ""])
     except BaseException as exc:
-        out.append([1, "".join(traceback.format_exception_only(type(exc), exc))[-400:]])
-print("INPROC" + json.dumps(out))
+        out.append([1, buf.getvalue(), "".join(traceback.format_exception_only(type(exc), exc))[-400:]])
+sys.stdout.write("INPROC" + json.dumps(out) + "\n")
 """
 
 
 def run_linked(workdir, progs, name="g"):
-    """Programs whose LAST command (Convert --copy-info) is executed through the
-    function API scripts.convert_chunks.convert_chunks(src, dst, copy_info=True)
-    in ONE helper interpreter, in the order of `progs`; everything before runs
-    as usual.  Each program gets its own trace."""
+    """Programs whose LAST commands (prog["link_calls"] of them, default 1) are
+    executed through the FUNCTION API in ONE helper interpreter:
+      Convert --copy-info -> scripts.convert_chunks.convert_chunks(src, dst, copy_info=True)
+      Stats               -> scripts.scale_stats.show_scale_file_info(dir)
+    Call order: the first in-process command of every program in list order,
+    then the second ones, ... (programs A [2 calls], B [1 call] give A, B, A).
+    Everything before runs as usual.  Each program gets its own trace."""
     sessions = []
     try:
+        plan = []
         for k, p in enumerate(progs):
-            last = p["cmds"][-1]
-            if last["op"] != "Convert" or last["copy"] != "copy":
-                raise tlc.MachineryError("linked programs must end with Convert --copy-info")
+            ncall = int(p.get("link_calls", 1))
+            tail = p["cmds"][-ncall:]
+            for c in tail:
+                if not ((c["op"] == "Convert" and c["copy"] == "copy") or c["op"] == "Stats"):
+                    raise tlc.MachineryError("in-process commands must be Convert --copy-info or Stats")
             s = Session(workdir, p, "%s_%d" % (name, k))
             sessions.append(s)
-            for c in p["cmds"][:-1]:
+            for c in p["cmds"][:-ncall]:
                 s.step(c)
-        pairs = [[s.dirs[s.prog["cmds"][-1]["src"]], s.dirs[s.prog["cmds"][-1]["d"]]] for s in sessions]
+            plan.append(tail)
+        order = [(k, j) for j in range(max(len(t) for t in plan)) for k in range(len(plan)) if j < len(plan[k])]
+        calls = []
+        for k, j in order:
+            c, s = plan[k][j], sessions[k]
+            calls.append({"kind": "convert", "src": s.dirs[c["src"]], "dst": s.dirs[c["d"]]}
+                         if c["op"] == "Convert" else {"kind": "stats", "url": s.dirs[c["d"]]})
         tmpdir = os.path.join(sessions[0].base, "tmp")
         os.makedirs(tmpdir, exist_ok=True)
-        p = subprocess.run([sys.executable, "-c", _INPROC, json.dumps(pairs)], env=sub_env(tmpdir),
+        p = subprocess.run([sys.executable, "-c", _INPROC, json.dumps(calls)], env=sub_env(tmpdir),
                            capture_output=True, timeout=300)
         text = p.stdout.decode("utf-8", "replace")
         i = text.rfind("INPROC")
         if i < 0:
-            raise tlc.MachineryError("in-process conversion helper failed: %s"
+            raise tlc.MachineryError("in-process helper failed: %s"
                                      % p.stderr.decode("utf-8", "replace")[-600:])
         res = json.loads(text[i + len("INPROC"):].strip().splitlines()[0])
-        for s, (rc, msg), pr in zip(sessions, res, pairs):
-            s.step(s.prog["cmds"][-1],
-                   forced=(rc, "", msg, ["<in-process convert_chunks(%s, %s, copy_info=True)>" % tuple(pr)]))
+        # events are recorded per program in its own command order
+        for k, s in enumerate(sessions):
+            for j, c in enumerate(plan[k]):
+                n = order.index((k, j))
+                rc, out, msg = res[n]
+                what = ("convert_chunks(%s, %s, copy_info=True)" % (calls[n]["src"], calls[n]["dst"])
+                        if calls[n]["kind"] == "convert" else "show_scale_file_info(%s)" % calls[n]["url"])
+                s.step(c, forced=(rc, out, msg, ["<in-process call %d of %d: %s>" % (n + 1, len(calls), what)]))
     finally:
         cases = [s.close() for s in sessions]
     return cases
